@@ -244,12 +244,31 @@ class Explorer:
                 cand = os.path.join(cd, fname)
                 before = listing(cd)
                 s_in_before = deep(st_in)
+                # the process's current directory is the user's directory, not the candidate's: files there that happen to be
+                # called like a scratch file of the pass must survive
+                here = os.path.join(self.d, f'cwd{run}')
+                if os.path.exists(here):
+                    shutil.rmtree(here)
+                os.makedirs(here)
+                for suffix in ('.in', '.tmp', '.orig', '.bak', '~', '.out'):
+                    with open(os.path.join(here, os.path.basename(fname) + suffix), 'w') as fh:
+                        fh.write('bystander ' + suffix)
+                here_before = listing(here)
+                old_cwd = os.getcwd()
+                os.chdir(here)
                 try:
                     res, st_out = p.transform(cand, st_in, ProcessEventNotifier(None))
                     resn = res.name
                 except Exception as e:
                     res, st_out, resn = None, None, 'EXC:' + type(e).__name__
+                finally:
+                    os.chdir(old_cwd)
                 after = listing(cd)
+                here_after = listing(here)
+                if here_after != here_before:
+                    ctx.violation(f'transform-touches-other-files:{label}', f'{label}.transform changed the current directory of the process (not the candidate\'s directory): '
+                                  f'created {sorted(set(here_after) - set(here_before))}, removed {sorted(set(here_before) - set(here_after))}, '
+                                  f'modified {sorted(n for n in here_before if n in here_after and here_before[n] != here_after[n])}', rep)
                 self.check_untouched(label, 'transform', p, st_in, s_in_before, pb, rep)
                 extra = sorted(set(after) - set(before))
                 gone = sorted(set(before) - set(after))
